@@ -310,6 +310,56 @@ theorem multipath_stream_replay (d : TDest) (hd : KeysNodup d.paths) (ops : List
     rw [multipath_stream_step d.paths (locCalc d op).paths hd hn]
     exact ih (locCalc d op) hn
 
+/-! ### the multipath report of `GetChanges` (the watcher's MultiPathList) -/
+
+theorem mpChanged_iff (a b : List TPath) : mpChanged a b = false ↔ a.map TPath.sig = b.map TPath.sig := by
+  induction a generalizing b with
+  | nil => cases b <;> simp [mpChanged]
+  | cons x r ih =>
+    cases b with
+    | nil => simp [mpChanged]
+    | cons y r' =>
+      simp only [mpChanged, Bool.or_eq_false_iff, List.map_cons, List.cons.injEq, ih r']
+      constructor
+      · rintro ⟨h1, h2⟩; exact ⟨by simpa using h1, h2⟩
+      · rintro ⟨h1, h2⟩; exact ⟨by simpa using h1, h2⟩
+
+/-- **`GetChanges` reports the multipath set exactly when it changed AS A LIST OF PATHS WITH THEIR
+ATTRIBUTES** (source, LOCAL_PREF, community per position — what `Path.Equal` compares; the path id is
+not part of it): the report is nil iff old and new set agree position by position, and otherwise it
+is the new set.  So an attribute-only replacement of a member, at any position, is reported. -/
+theorem multipath_report_exact (oldL newL : List TPath) :
+    (multiReport oldL newL = none ↔ (multiBest oldL).map TPath.sig = (multiBest newL).map TPath.sig) ∧
+    (∀ m, multiReport oldL newL = some m → m = multiBest newL) := by
+  unfold multiReport
+  cases h : mpChanged (multiBest oldL) (multiBest newL) with
+  | false =>
+    refine ⟨⟨fun _ => (mpChanged_iff _ _).mp h, fun _ => by simp⟩, fun m hm => by simp at hm⟩
+  | true =>
+    refine ⟨⟨fun hn => by simp at hn, fun he => ?_⟩, fun m hm => by simpa using hm.symm⟩
+    have := (mpChanged_iff _ _).mpr he
+    rw [h] at this
+    cases this
+
+/-- a watcher that replaces its copy by the report whenever there is one holds the table's current
+multipath set, attributes included, after every step of every history -/
+def watcherReplay (prev : List TPath) (c : List (Nat × Nat × Nat)) : List (List TPath) → List (Nat × Nat × Nat)
+  | [] => c
+  | l :: r =>
+    watcherReplay l (match multiReport prev l with | some m => m.map TPath.sig | none => c) r
+
+theorem multipath_report_replay (d : TDest) (ops : List TOp) :
+    watcherReplay d.paths ((multiBest d.paths).map TPath.sig) (destStates d ops) =
+      (multiBest (destFinal d ops).paths).map TPath.sig := by
+  induction ops generalizing d with
+  | nil => rfl
+  | cons op r ih =>
+    simp only [destStates, destFinal, watcherReplay]
+    have hx := multipath_report_exact d.paths (locCalc d op).paths
+    cases hr : multiReport d.paths (locCalc d op).paths with
+    | none => simp only []; rw [hx.1.mp hr]; exact ih (locCalc d op)
+    | some m => simp only []; rw [hx.2 m hr]; exact ih (locCalc d op)
+
 /-! ### partial operations on a multi-family Adj-RIB-In (`AdjRib.Drop / StaleAll / DropStale (rfList)`) -/
 
 /-- **Granularity**: an operation on a subset of the families leaves every OTHER family's table
@@ -467,6 +517,21 @@ example (p : Pfx) (ops : List TOp) :
     mpReplay [] (fun _ => none) (destStates (locOps.fresh p) ops) =
       mpView (multiBest (destFinal (locOps.fresh p) ops).paths) :=
   multipath_stream_replay (locOps.fresh p) (by simp [KeysNodup, locOps]) ops
+
+/-- an attribute-only replacement (the community changes, LOCAL_PREF, age, source and path id stay) of
+the SECOND member of a multipath set is reported, and announced to the (source, path-id) consumers -/
+example :
+    multiReport [mpath 2 1 200 9 1, mpath 2 2 200 8 2, mpath 5 0 200 7 3]
+                [mpath 2 1 200 9 1, { mpath 2 2 200 8 4 with attr := 7 }, mpath 5 0 200 7 3]
+      = some [mpath 2 1 200 9 1, { mpath 2 2 200 8 4 with attr := 7 }, mpath 5 0 200 7 3] ∧
+    (mpDiff [mpath 2 1 200 9 1, mpath 2 2 200 8 2, mpath 5 0 200 7 3]
+            [mpath 2 1 200 9 1, { mpath 2 2 200 8 4 with attr := 7 }, mpath 5 0 200 7 3]).1
+      = [{ mpath 2 2 200 8 4 with attr := 7 }] := by
+  decide
+/-- … while swapping a member for an equal path of the same source under another path id is not -/
+example :
+    multiReport [mpath 2 1 200 9 1, mpath 5 0 200 7 3] [mpath 2 2 200 9 4, mpath 5 0 200 7 3] = none := by
+  decide
 
 end Examples
 
